@@ -4,6 +4,8 @@ import (
 	"fmt"
 	"go/types"
 	"strings"
+
+	"golang.org/x/tools/go/ssa"
 )
 
 // sv is a typed spec value.
@@ -455,6 +457,24 @@ func (e *specEnv) evalCall(n *ECall) sv {
 	case "bigval":
 		need(1)
 		return sv{sel(c.bigHeap(), args()[0].t), tInt}
+	case "global":
+		// the current content of a package-level variable
+		need(1)
+		id, ok := n.Args[0].(*EIdent)
+		if !ok || e.pkg == nil {
+			specFail("global(name) needs a package-level variable name")
+		}
+		sp := c.eng.pkgs[e.pkg.Path()]
+		if sp == nil {
+			specFail("no package for global %s", id.Name)
+		}
+		g, ok := sp.Members[id.Name].(*ssa.Global)
+		if !ok {
+			specFail("no package-level variable %s", id.Name)
+		}
+		pt := g.Type().(*types.Pointer)
+		a := c.addrOfPtr(c.term(g), pt.Elem())
+		return sv{c.load(a), pt.Elem()}
 	case "feq":
 		need(2)
 		as := args()
